@@ -10,9 +10,13 @@
      FT_Int = FT_Int32 = 32 bits, FT_MULFIX_ASSEMBLER = FT_MulFix_x86_64.
 
    Integers are unbounded Z with every wrap/truncation explicit.
-   skrifa side, argument [st]: [true] = overflow-checks profile (the profile the harness builds;
-   [None] = panic); [false] = release reading (i32 arithmetic wraps; [None] only for the panics that
-   exist in release too: division by zero and MIN / -1). *)
+   skrifa side, argument [st]: since /repo fb7fa4b the hinting kernels use wrapping_add / wrapping_sub /
+   wrapping_neg / wrapping_mul throughout, so [st = false] (every i32 operation wraps) IS the model of
+   the code in every build profile and is the reading tied by the harness ([None] = the two panics that
+   remain: `/ 0` and `i32::MIN / -1` in Super45).  [st = true] evaluates the same expressions but
+   yields [None] as soon as an intermediate i32 result would wrap; it is not a model of any build, it
+   is the executable definition of the WRAP-FREE DOMAIN on which the equality theorems with FreeType's
+   64-bit arithmetic are stated (Proofs.v: [wrap_free_*]). *)
 From Coq Require Import ZArith List Bool.
 From FV Require Import Lib.RustInt C15.Model.
 Import ListNotations.
@@ -22,18 +26,19 @@ Open Scope Z_scope.
 (*                                      skrifa side                                        *)
 (* ======================================================================================= *)
 
-(* i32 `+`, `-`, unary `-`, `*` on a mathematically exact result z *)
+(* i32 wrapping_add / wrapping_sub / wrapping_neg / wrapping_mul on a mathematically exact result z
+   ([st = true]: None if z does not fit, see the header) *)
 Definition ar32 (st : bool) (z : Z) : option Z := if st then chk_s 32 z else Some (wrap_s 32 z).
 
 (* math.rs: pub fn floor(x: i32) -> i32 { x & !63 } *)
 Definition sk_floor (x : Z) : Z := Z.land x (Z.lnot 63).
-(* math.rs: pub fn round(x: i32) -> i32 { floor(x + 32) } *)
+(* math.rs: pub fn round(x: i32) -> i32 { floor(x.wrapping_add(32)) } *)
 Definition sk_round (st : bool) (x : Z) : option Z := do y <- ar32 st (x + 32);; Some (sk_floor y).
-(* math.rs: pub fn ceil(x: i32) -> i32 { floor(x + 63) } *)
+(* math.rs: pub fn ceil(x: i32) -> i32 { floor(x.wrapping_add(63)) } *)
 Definition sk_ceil (st : bool) (x : Z) : option Z := do y <- ar32 st (x + 63);; Some (sk_floor y).
-(* math.rs: fn floor_pad(x: i32, n: i32) -> i32 { x & !(n - 1) } *)
+(* math.rs: fn floor_pad(x: i32, n: i32) -> i32 { x & !(n.wrapping_sub(1)) } *)
 Definition sk_floor_pad (st : bool) (x n : Z) : option Z := do m <- ar32 st (n - 1);; Some (Z.land x (Z.lnot m)).
-(* math.rs: pub fn round_pad(x: i32, n: i32) -> i32 { floor_pad(x + n / 2, n) } *)
+(* math.rs: pub fn round_pad(x: i32, n: i32) -> i32 { floor_pad(x.wrapping_add(n / 2), n) } *)
 Definition sk_round_pad (st : bool) (x n : Z) : option Z := do y <- ar32 st (x + Z.quot n 2);; sk_floor_pad st y n.
 
 (* math.rs: mul / div / mul_div = Fixed::{mul, div, mul_div} on the raw bits (C15.Model) *)
@@ -41,7 +46,8 @@ Definition sk_mul (a b : Z) : Z := fixed_mul a b.
 Definition sk_div (a b : Z) : Z := fixed_div a b.
 Definition sk_mul_div (a b c : Z) : Z := fixed_mul_div a b c.
 
-(* math.rs: pub fn mul_div_no_round(mut a: i32, mut b: i32, mut c: i32) -> i32 *)
+(* math.rs: pub fn mul_div_no_round(mut a: i32, mut b: i32, mut c: i32) -> i32
+   (a.wrapping_neg() ..., (d as i32).wrapping_neg()) *)
 Definition sk_mul_div_no_round (st : bool) (a b c : Z) : option Z :=
   let s := 1 in
   do a1 <- (if a <? 0 then ar32 st (- a) else Some a);;
@@ -63,7 +69,7 @@ Definition sk_mul14 (a b : Z) : Z :=
 
 (* round.rs: RoundState::round.  mode: 0 Grid, 1 HalfGrid, 2 DoubleGrid, 3 DownToGrid, 4 UpToGrid,
    5 Off, 6 Super, 7 Super45 *)
-Definition div32 (st : bool) (a b : Z) : option Z :=          (* i32 `/`: traps on 0 and MIN / -1 in every profile *)
+Definition div32 (st : bool) (a b : Z) : option Z :=          (* plain i32 `/` (still unchecked in Super45): panics on 0 and MIN / -1 *)
   if b =? 0 then None else chk_s 32 (Z.quot a b).
 
 Definition sk_rs_round (st : bool) (mode thr ph per d : Z) : option Z :=
@@ -265,20 +271,20 @@ Definition eval_sk (op : Z) (args : list Z) : option (list Z) :=
   | 1, [a; b] => Some [sk_mul a b]
   | 2, [a; b] => Some [sk_div a b]
   | 3, [a; b; c] => Some [sk_mul_div a b c]
-  | 4, [a; b; c] => Some (o1 (sk_mul_div_no_round true a b c))
+  | 4, [a; b; c] => Some (o1 (sk_mul_div_no_round false a b c))
   | 5, [a; b] => Some [sk_mul14 a b]
   | 6, [x] => Some [sk_floor x]
-  | 7, [x] => Some (o1 (sk_round true x))
-  | 8, [x] => Some (o1 (sk_ceil true x))
-  | 9, [x; n] => Some (o1 (sk_round_pad true x n))
-  | 10, [t; p; q; d] => Some (o1 (sk_rs_round true 0 t p q d))
-  | 11, [t; p; q; d] => Some (o1 (sk_rs_round true 1 t p q d))
-  | 12, [t; p; q; d] => Some (o1 (sk_rs_round true 2 t p q d))
-  | 13, [t; p; q; d] => Some (o1 (sk_rs_round true 3 t p q d))
-  | 14, [t; p; q; d] => Some (o1 (sk_rs_round true 4 t p q d))
-  | 15, [t; p; q; d] => Some (o1 (sk_rs_round true 5 t p q d))
-  | 16, [t; p; q; d] => Some (o1 (sk_rs_round true 6 t p q d))
-  | 17, [t; p; q; d] => Some (o1 (sk_rs_round true 7 t p q d))
+  | 7, [x] => Some (o1 (sk_round false x))
+  | 8, [x] => Some (o1 (sk_ceil false x))
+  | 9, [x; n] => Some (o1 (sk_round_pad false x n))
+  | 10, [t; p; q; d] => Some (o1 (sk_rs_round false 0 t p q d))
+  | 11, [t; p; q; d] => Some (o1 (sk_rs_round false 1 t p q d))
+  | 12, [t; p; q; d] => Some (o1 (sk_rs_round false 2 t p q d))
+  | 13, [t; p; q; d] => Some (o1 (sk_rs_round false 3 t p q d))
+  | 14, [t; p; q; d] => Some (o1 (sk_rs_round false 4 t p q d))
+  | 15, [t; p; q; d] => Some (o1 (sk_rs_round false 5 t p q d))
+  | 16, [t; p; q; d] => Some (o1 (sk_rs_round false 6 t p q d))
+  | 17, [t; p; q; d] => Some (o1 (sk_rs_round false 7 t p q d))
   | 18, [v; s] => Some [sk_scale_coord v s]
   | 19, [a; b] => Some [sk_compute_scale a b]
   | 20, [x] => Some [sk_f26dot6_round x]
